@@ -41,6 +41,32 @@ Theorem C02_union_establishes_the_asserted_equality : forall l r s x s',
 Proof. exact eg_union_establishes. Qed.
 Print Assumptions C02_union_establishes_the_asserted_equality.
 
+(* THE CONGRUENCE CLAUSE on the model (EGraph/CongruenceFacts.v): in a state in which the operation has returned
+   (inv3, hash-cons invariant hc_ok, worklist empty), two represented e-nodes of the same operator whose children are
+   pairwise equal are themselves equal - in particular, immediately after eg_union a b every pair of represented
+   parents f(..a..) / f(..b..) is equal.  Premise ss_ok (every symmetry of a stored e-node that is induced by
+   symmetries of its children is in its class group - what determine_self_symmetries is there to establish): decidable
+   (ss_okb, sound), NOT proved to be a reachable invariant, evaluated on every explored state (machine egc); false in
+   the middle of a union (counterexample node_congruence_false_mid_union), which is why the clause is about states in
+   which the operation has returned. *)
+From SE Require Import EGraph.ModelFacts EGraph.HashconsFacts EGraph.NodeCong EGraph.CongruenceFacts.
+
+Theorem C02_congruence_of_represented_nodes : forall s n l x1 x2,
+  inv3 s -> hc_ok s -> ss_okb s = true -> List.NoDup (RenameFacts.binders n) ->
+  List.Forall2 (kid_eq s) (app_occ n) l ->
+  eg_lookup s n = Ok (Some x1) -> eg_lookup s (set_apps n l) = Ok (Some x2) -> eg_eq s x1 x2 = Ok true.
+Proof. exact node_congruence_checked. Qed.
+Print Assumptions C02_congruence_of_represented_nodes.
+
+Theorem C02_congruence_immediately_after_union : forall a b s u s',
+  inv3 s -> hc_ok s -> covers s a -> covers s b -> eg_union a b s = Ok (u, s') -> ss_ok s' ->
+  inv3 s' /\ hc_ok s' /\ pending s' = [] /\ eg_eq s' a b = Ok true /\
+  (forall n l x1 x2, List.NoDup (RenameFacts.binders n) -> List.Forall (covers s') (app_occ n) ->
+     List.Forall2 (swap_ab a b) (app_occ n) l ->
+     eg_lookup s' n = Ok (Some x1) -> eg_lookup s' (set_apps n l) = Ok (Some x2) -> eg_eq s' x1 x2 = Ok true).
+Proof. exact union_congruence. Qed.
+Print Assumptions C02_congruence_immediately_after_union.
+
 (* the statement that is NOT proved: the model-level completeness of the e-graph *)
 Definition C02_full : Prop :=
   forall (eq_reported : equations -> cterm -> cterm -> bool) E s t,
